@@ -138,7 +138,7 @@ namespace
       Geometry::MeshAtlas<MeshType> atlas;
       std::unique_ptr<NodeType> node = NodeType::make_unique(nullptr, &atlas);
       reader.parse(*node, atlas, nullptr);
-      node->adapt();
+      // (no adapt() of the base mesh: the domain control does not adapt level 0 either, only refined levels)
       for(int l = 0; l <= max_level; ++l)
       {
         auto ek = wc::entity_keys(*node->get_mesh(), SH->dict);
@@ -317,7 +317,7 @@ std::string harness_run()
 {
   sim::pthread_model_reset();
   sim::clock_reset();
-  wc::WorldCfg cfg = sim::thorough() ? wc::draw_cfg(5, 3) : wc::draw_cfg(4, 2);
+  wc::WorldCfg cfg = sim::thorough() ? wc::draw_cfg(5, 3, true, true) : wc::draw_cfg(4, 2, true, true);
   static const uint64_t costs[4] = {200000, 500000, 1000000, 3000000};
   sim::clock_set_read_cost(costs[sim::cfg_int("clock_cost", 0, 3)]);
   CNT = Counters();
@@ -327,13 +327,14 @@ std::string harness_run()
   typedef Geometry::ConformalMesh<FEAT::Shape::Simplex<3>> Tetra;
   switch(cfg.mesh)
   {
-  case 0: case 2: run_world<ShapeKit<Quad>>(cfg); break;
-  case 1: case 4: run_world<ShapeKit<Tria>>(cfg); break;
+  case 0: case 2: case 6: case 8: run_world<ShapeKit<Quad>>(cfg); break;
+  case 1: case 4: case 7: run_world<ShapeKit<Tria>>(cfg); break;
   case 3: run_world<ShapeKit<Hexa>>(cfg); break;
   case 5: run_world<ShapeKit<Tetra>>(cfg); break;
   }
   sim::clock_set_read_cost(0);
   if(cfg.layers > 1) sim::probe("multi_layer_world");
+  if(cfg.mesh >= 6) sim::probe("mesh_with_chart_adapted_boundary");
   if(cfg.parti == 2) sim::probe("genetic_partitioner_world");
   if(cfg.parti == 3) sim::probe("explicit_assignment_world");
   return "{\"level_groups\":" + std::to_string(CNT.level_groups) + ",\"cells\":" + std::to_string(CNT.cells) + ",\"halo_pairs\":" + std::to_string(CNT.halo_pairs) +
